@@ -2,6 +2,7 @@
 package props
 
 import (
+	_ "verifharness/internal/props/c01"
 	_ "verifharness/internal/props/c02"
 	_ "verifharness/internal/props/c03"
 	_ "verifharness/internal/props/c04"
